@@ -127,6 +127,11 @@ class CoxeterGroup:
         if (_matrix.astype(int) != _matrix).any():
             raise GeometryError("Coxeter matrix must have integer entries")
 
+        if _matrix.dtype.kind not in "iu":
+            # the labels are integers: do not carry a low-precision
+            # float dtype into computations like pi / m
+            _matrix = _matrix.astype(int)
+
         if (np.diag(_matrix) != 1).any():
             warnings.warn("Coxeter matrix should have 1's on the diagonal")
 
